@@ -4,9 +4,7 @@ from contracts import REG
 
 O = 'mesonbuild/options.py'
 def S_(cls, **f):
-    st = Struct(cls, f'mesonbuild.options:{cls}', **f)
-    st.fields = dict({'name': Str}, **st.fields)
-    return st
+    return Struct(cls, f'mesonbuild.options:{cls}', name=Str, **f)
 
 StrOpt = S_('UserStringOption', value=Str)
 BoolOpt = S_('UserBooleanOption', value=Bool)
